@@ -29,6 +29,7 @@ type selfResult struct {
 	Applied bool   `json:"applied"`
 	Builds  bool   `json:"builds"`
 	Caught  bool   `json:"caught"`
+	Flagged bool   `json:"flagged_undecided"` // exit 2 with an UNDECIDED line: reported, not decided
 	Rule    string `json:"rule,omitempty"`
 	Detail  string `json:"detail,omitempty"`
 }
@@ -126,8 +127,9 @@ func runMutant(prop string, name, kind string, apply func(dir string) (bool, str
 		}
 	} else {
 		res.Detail = fmt.Sprintf("exit %d without a VIOLATION line", code)
-		if strings.Contains(text, "UNDECIDED") {
-			res.Detail += " (UNDECIDED)"
+		if code == 2 && strings.Contains(text, "UNDECIDED property="+prop) {
+			res.Flagged = true
+			res.Detail += " (reported as UNDECIDED)"
 		}
 	}
 	return res
@@ -202,12 +204,15 @@ func selfTest(prop string, run *report.Run) {
 	}
 	wg.Wait()
 	sort.Slice(results, func(a, b int) bool { return results[a].Name < results[b].Name })
-	applied, caught := 0, 0
+	applied, caught, flagged := 0, 0, 0
 	for _, r := range results {
 		if r.Applied && r.Builds {
 			applied++
 			if r.Caught {
 				caught++
+			} else if r.Flagged {
+				flagged++
+				fmt.Printf("SELFTEST-UNDECIDED property=%s mutant=%q: %s\n", prop, r.Name, r.Detail)
 			} else {
 				fmt.Printf("SELFTEST-MISS property=%s mutant=%q: %s\n", prop, r.Name, r.Detail)
 			}
@@ -215,9 +220,9 @@ func selfTest(prop string, run *report.Run) {
 			fmt.Printf("SELFTEST-SKIP property=%s mutant=%q: %s\n", prop, r.Name, r.Detail)
 		}
 	}
-	fmt.Printf("selftest property=%s mutants=%d applied=%d caught=%d\n", prop, len(results), applied, caught)
+	fmt.Printf("selftest property=%s mutants=%d applied=%d caught=%d undecided=%d\n", prop, len(results), applied, caught, flagged)
 	run.Extra["self_test"] = map[string]interface{}{
 		"what":    "each mutant is applied to a scratch copy of the current /repo tree and the quick check must report a violation on it",
-		"mutants": len(results), "applied": applied, "caught": caught, "results": results,
+		"mutants": len(results), "applied": applied, "caught": caught, "reported_undecided": flagged, "results": results,
 	}
 }
